@@ -550,6 +550,22 @@ def zero_prob_or_complementary_body(prog):
     one add_and call, so whether a zero-probability instance is listed depends on evaluation order)."""
     from pbt.ref.semantics import expand
 
+    # ... or a predicate with a deterministic fact next to other clauses: its node becomes TRUE (and its negation
+    # FALSE) only when the fact's proof has arrived, which depends on the exploration order / buffering
+    det = set()
+    other = set()
+    for s in expand(prog):
+        if s[0] == "fact":
+            det.add((s[1][0], len(s[1][1])))
+        elif s[0] == "pfact":
+            other.add((s[2][0], len(s[2][1])))
+        elif s[0] == "rule":
+            other.add((s[1][0], len(s[1][1])))
+        elif s[0] == "ad":
+            for _, a_ in s[1]:
+                other.add((a_[0], len(a_[1])))
+    if det & other:
+        return True
     for s in expand(prog):
         if s[0] == "pfact" and float(s[1]) == 0.0:
             return True
